@@ -8,7 +8,7 @@ import (
 
 func init() {
 	registerProp(&PropSpec{ID: "C16", Title: "The debugger command interface is total", MinObls: 150,
-		Classes:     regexp.MustCompile(`^(safe|lock|inv|pre|post|assert|frame)`),
+		Classes:     regexp.MustCompile(`^(safe|lock|escape|inv|pre|post|assert|frame)`),
 		TrustedBase: []string{"zero-annotation safety obligations: one per instruction that can panic (nil dereference, index/slice bounds, unchecked type assertion, nil map write, division by zero, explicit panic/assert)", "native model of sync primitives (lock balance: no debugger lock is left held)"},
 		Assumptions: []string{"library functions called by the handlers do not panic on non-nil arguments (strconv, strings, fmt, json)", "evaluation of injected expressions does not panic (C06)",
 			"the debugger state is the one NewECALDebugger establishes plus what the visit hooks add: call stacks hold call nodes with tokens, interrogation states carry the node and scope they were created with"},
